@@ -81,7 +81,7 @@ def run_one(prog, prefix, opts, oracle, summ, want_sample=False):
     rec = driver.run_program(prog, prefix, kinds=opts.get("kinds", ("P", "T", "K")),
                              kill_code=opts.get("kill_code", -9),
                              monitors=opts.get("_monitors", ()),
-                             kill_when=opts.get("kill_when"))
+                             kill_when=opts.get("kill_when"), starve=opts.get("starve"))
     summ.executions += 1
     summ.decisions += len(rec.alts_log)
     summ.max_decisions = max(summ.max_decisions, len(rec.alts_log))
